@@ -135,6 +135,41 @@ func c19Oracle(cs []c19Cred, u, p, perm string) bool {
 	return grants(u, perm) || grants(u, "all")
 }
 
+// c19Exhaustive enumerates a small universe completely.
+func c19Exhaustive() [][]c19Cred {
+	sp := func(s string) *string { return &s }
+	users := []*string{nil, sp(""), sp("*"), sp("a")}
+	passes := []*string{nil, sp("p"), sp("q")}
+	permsets := []*[]string{nil, {}, {"all"}, {"query"}, {"all", "query"}}
+	var entries, full []c19Cred
+	for _, u := range users {
+		for _, p := range passes {
+			for _, ps := range permsets {
+				c := c19Cred{u, p, ps}
+				entries = append(entries, c)
+				if u != nil && p != nil && ps != nil {
+					full = append(full, c)
+				}
+			}
+		}
+	}
+	files := [][]c19Cred{{}}
+	for _, a := range entries {
+		files = append(files, []c19Cred{a})
+		for _, b := range entries {
+			files = append(files, []c19Cred{a, b})
+		}
+	}
+	for _, a := range full {
+		for _, b := range full {
+			for _, c := range full {
+				files = append(files, []c19Cred{a, b, c})
+			}
+		}
+	}
+	return files
+}
+
 func c19Run(cs []c19Cred) (ops, out []string, store *CredentialsStore, err error) {
 	var objs []string
 	for _, c := range cs {
@@ -155,12 +190,29 @@ func TestVerifC19(t *testing.T) {
 	r := vfNewRng(19)
 	files := vfScale(600, 20000)
 	var allOps, allImpl [][]string
-	for f := 0; f < files; f++ {
+	var exh [][]c19Cred
+	if vfThorough() {
+		exh = c19Exhaustive()
+		rep.Exhaustive = true
+		rep.Note("thorough tier: exhaustive over all %d files with <=2 entries (users {'',*,a}|absent, passwords {p,q}|absent, perms subsets of {all,query}|absent) and all 3-entry files with every key present, in addition to the random files", len(exh))
+	}
+	for f := 0; f < files+len(exh); f++ {
 		absent := 0
 		if f%3 == 0 {
 			absent = 20
 		}
-		cs := c19GenFile(r, absent)
+		var cs []c19Cred
+		if f < len(exh) {
+			cs = exh[f]
+			absent = 0
+			for _, c := range cs {
+				if c.user == nil || c.pass == nil || c.perms == nil {
+					absent = 1
+				}
+			}
+		} else {
+			cs = c19GenFile(r, absent)
+		}
 		ops, out, store, err := c19Run(cs)
 		if err != nil {
 			t.Fatalf("load failed on generated file: %v", err)
